@@ -1,1 +1,35 @@
-(* placeholder *)
+(* C02 — no byte sequence from a client makes request decoding panic.
+   ONLY statements.  [server_receive prim_ok strict modfix] is conn.readPacket
+   followed by conn.readRequest on one frame; strict = true is the current
+   tree (checked assertions).  The oracle [prim_ok] (acceptance of universal
+   Real / UTF8String / GeneralizedTime contents) and [modfix] are universally
+   quantified. *)
+From G Require Import Base Ber Ldap LdapNoPanic.
+Open Scope N_scope.
+
+Theorem C02_no_panic : forall prim_ok modfix bs, server_receive prim_ok true modfix bs <> Panic.
+Proof. exact server_receive_no_panic. Qed.
+Print Assumptions C02_no_panic.
+
+Theorem C02_stream : forall prim_ok modfix fuel bs,
+  Forall (fun o => o <> Panic) (serve_stream prim_ok true modfix fuel bs).
+Proof. exact serve_stream_no_panic. Qed.
+Print Assumptions C02_stream.
+
+Theorem C02_total : forall prim_ok modfix bs,
+  is_ok (server_receive prim_ok true modfix bs) = true \/ is_err (server_receive prim_ok true modfix bs) = true.
+Proof. exact server_receive_total. Qed.
+Print Assumptions C02_total.
+
+(* the reader underneath (go-asn1-ber readPacket) never panics either *)
+Theorem C02_reader : forall prim_ok bs, read_packet prim_ok bs <> Panic.
+Proof. exact BerProofs.read_packet_no_panic. Qed.
+Print Assumptions C02_reader.
+
+(* the pinned code, with its unchecked assertions, did panic: witnesses *)
+Theorem C02_pinned_refuted :
+  server_receive no_oracle false false frame_bind_v2 = Panic /\
+  server_receive no_oracle false false frame_ctl_int_type = Panic /\
+  server_receive no_oracle false false frame_paging_short = Panic.
+Proof. exact server_receive_pinned_refuted. Qed.
+Print Assumptions C02_pinned_refuted.
